@@ -37,6 +37,7 @@ CELLS = [(l, u, d) for l in LAYOUTS for u in UNITY for d in DEFLIB]
 PIPE_MECH = 'unescapable-pipe-in-build-line-path'
 FLATGEN_MECH = 'flat-layout-wrong-path-for-built-file'
 UNITY_EXT_MECH = 'unity-extracted-objects-ignore-non-unity-sources'
+LOCALPROG_MECH = 'test-local-program-exe-or-arg-not-in-prereq'
 SCRATCH_ROOT = ''   # set in the parent before forking workers; removed by common at exit
 
 
@@ -303,7 +304,9 @@ def check_expectations(out: Out, m: mn.Manifest, targets: T.Sequence[T.Tuple[str
     for name, bench, pre in tests:
         rset = r_bench if bench else r_test
         root = 'meson-benchmark-prereq' if bench else 'meson-test-prereq'
-        for tid, paths in pre:
+        for ent in pre:
+            tid, paths = ent[0], ent[1]
+            via = ent[2] if len(ent) > 2 else ''
             for p in paths:
                 p = norm(p)
                 out.count('monitor:test-prereq-reachable')
@@ -313,8 +316,13 @@ def check_expectations(out: Out, m: mn.Manifest, targets: T.Sequence[T.Tuple[str
                                                                   'oracle': source})
                     continue
                 if e.idx not in rset:
-                    out.violation('test-prerequisite-not-reachable-from-' + root,
-                                  {'test': name, 'target': tid, 'path': p, 'oracle': source,
+                    # classifier: the test's executable / an argument is the result of find_program() for a name
+                    # overridden with a built executable (build.LocalProgram); get_testlike_targets() unwraps
+                    # neither (it does for depends:, which Test.__init__ unwraps)
+                    mech = LOCALPROG_MECH if via in ('local-program-exe', 'local-program-arg') else \
+                        'test-prerequisite-not-reachable-from-' + root
+                    out.violation(mech,
+                                  {'test': name, 'target': tid, 'path': p, 'oracle': source, 'referenced_as': via,
                                    'prereq_inputs': m.producer[root].inputs[:20] if root in m.producer else None})
                 elif e.idx not in r_all:
                     out.count('test_prereq_only_via_prereq_target')
@@ -326,7 +334,7 @@ def table_expectations(rec: dict) -> T.Tuple[list, list]:
         if default is None or tn in ('RunTarget', 'AliasTarget'):
             continue
         targets.append((tid, bool(default), outs, tn))
-    tests = [(n, b, [(tid, outs) for tid, outs in pre]) for n, b, pre in rec.get('tests', [])]
+    tests = [(n, b, [tuple(x) for x in pre]) for n, b, pre in rec.get('tests', [])]
     return targets, tests
 
 
@@ -338,7 +346,8 @@ def desc_expectations(desc: dict, cfg: dict) -> T.Tuple[list, list]:
                         gen_c04.expected_paths(t, cfg['layout'], cfg['default_library']), t['kind']))
     tests = []
     for t in desc['tests']:
-        pre = [(i + ':' + byid[i]['name'], gen_c04.dependency_paths(byid[i], cfg['layout'], cfg['default_library']))
+        pre = [(i + ':' + byid[i]['name'], gen_c04.dependency_paths(byid[i], cfg['layout'], cfg['default_library']),
+                t.get('via', {}).get(i, ''))
                for i in t['prereq']]
         tests.append((t['name'], t['benchmark'], pre))
     return targets, tests
@@ -742,7 +751,61 @@ def probe_mixed_languages() -> T.Tuple[dict, dict]:
     return files, {'targets': [], 'tests': [], 'features': ['probe:mixed-languages']}
 
 
+def probe_local_programs() -> T.Tuple[dict, dict]:
+    """Built executables reached through find_program() after meson.override_find_program() (by a subproject and by
+    the project itself), none built by default, used by tests and benchmarks in depends:, as the executable and as
+    an argument."""
+    files = {
+        'meson.build': "project('c04 probe', 'c', meson_version: '>=1.12.0')\n"
+        "subproject('tool')\n"
+        "own = executable('own tool', 'm.c', build_by_default: false)\n"
+        "meson.override_find_program('own-tool', own)\n"
+        "checker = executable('checker', 'm.c')\n"
+        "extra = custom_target('extra', output: 'extra.dat', command: [find_program('python3'), '-c', 'pass'])\n"
+        "test('dep sub', checker, depends: [extra, find_program('helper-dep')])\n"
+        "benchmark('dep sub bench', checker, depends: [find_program('helper-bdep')])\n"
+        "test('dep own', checker, depends: find_program('own-tool'))\n"
+        "test('exe sub', find_program('helper-exe'))\n"
+        "test('arg sub', checker, args: ['--tool', find_program('helper-arg')])\n",
+        'm.c': _MAIN,
+        'subprojects/tool/meson.build': "project('tool', 'c')\n" + ''.join(
+            f"h_{k} = executable('helper {k}', 'm.c', build_by_default: false)\n"
+            f"meson.override_find_program('helper-{k}', h_{k})\n" for k in ('dep', 'bdep', 'exe', 'arg')),
+        'subprojects/tool/m.c': _MAIN}
+    t = [{'id': 'l' + k, 'kind': 'exe', 'name': 'helper ' + k, 'dir': '', 'sp': 'tool', 'default': False}
+         for k in ('dep', 'bdep', 'exe', 'arg')]
+    t += [{'id': 'lown', 'kind': 'exe', 'name': 'own tool', 'dir': '', 'sp': '', 'default': False},
+          {'id': 'lchk', 'kind': 'exe', 'name': 'checker', 'dir': '', 'sp': '', 'default': True},
+          {'id': 'lext', 'kind': 'custom', 'name': 'extra', 'dir': '', 'sp': '', 'default': False, 'outputs': ['extra.dat']}]
+    tests = [{'name': 'dep sub', 'benchmark': False, 'prereq': ['lchk', 'lext', 'ldep'], 'via': {'ldep': 'local-program-dep'}},
+             {'name': 'dep sub bench', 'benchmark': True, 'prereq': ['lchk', 'lbdep'], 'via': {'lbdep': 'local-program-dep'}},
+             {'name': 'dep own', 'benchmark': False, 'prereq': ['lchk', 'lown'], 'via': {'lown': 'local-program-dep'}},
+             {'name': 'exe sub', 'benchmark': False, 'prereq': ['lexe'], 'via': {'lexe': 'local-program-exe'}},
+             {'name': 'arg sub', 'benchmark': False, 'prereq': ['lchk', 'larg'], 'via': {'larg': 'local-program-arg'}}]
+    return files, {'targets': t, 'tests': tests, 'features': ['probe:local-programs']}
+
+
+def probe_preserve_path() -> T.Tuple[dict, dict]:
+    """generator.process(..., preserve_path_from:) with inputs directly in that directory and one and two levels
+    below it; a two-output generator (source + header) so that the outputs are both compiled and order-only
+    inputs of the target's other objects."""
+    files = {
+        'meson.build': _HEAD + "py = find_program('python3')\n"
+        "g = generator(py, output: ['@BASENAME@.c', '@BASENAME@.h'], arguments: ['-c', 'pass', '@INPUT@', '@OUTPUT0@', '@OUTPUT1@'])\n"
+        "gl = g.process('data/top.in', 'data/one/mid.in', 'data/one/two/deep.in', preserve_path_from: meson.current_source_dir() / 'data')\n"
+        "executable('app', 'm.c', gl)\n"
+        "subdir('sub')\n",
+        'sub/meson.build': "gs = g.process('in/a/x.in', 'in/y.in', preserve_path_from: meson.current_source_dir())\n"
+                           "library('uses gen', 'l.c', gs)\n",
+        'm.c': _MAIN, 'sub/l.c': 'int l(void) { return 0; }\n',
+        'data/top.in': 'x\n', 'data/one/mid.in': 'x\n', 'data/one/two/deep.in': 'x\n',
+        'sub/in/a/x.in': 'x\n', 'sub/in/y.in': 'x\n'}
+    return files, {'targets': [], 'tests': [], 'features': ['probe:generator-preserve-path']}
+
+
 PROBES: T.Dict[str, T.Callable[[], T.Tuple[dict, dict]]] = {
+    'local-programs': probe_local_programs,
+    'preserve-path': probe_preserve_path,
     'mixed-languages': probe_mixed_languages,
     'optional-subprojects': probe_optional_subprojects,
     'same-name-prereqs': probe_same_name_prereqs,
@@ -781,7 +844,7 @@ def plan(chk: common.Check) -> T.List[dict]:
     quick = chk.tier == 'quick'
     cases: T.List[dict] = []
     # generated projects x configuration cells (every cell is visited; cells rotate over projects)
-    n_proj, per_proj = (14, 3) if quick else (100, 6)
+    n_proj, per_proj = (12, 3) if quick else (100, 6)
     cells = list(CELLS)
     rng.shuffle(cells)
     k = 0
@@ -821,7 +884,7 @@ def plan(chk: common.Check) -> T.List[dict]:
     if quick:
         rng.shuffle(projs)
         others = [p for p in projs if not p.startswith(('common/', 'unit/'))]
-        projs = [p for p in projs if p.startswith(('common/', 'unit/'))][:30] + others[:8]
+        projs = [p for p in projs if p.startswith(('common/', 'unit/'))][:26] + others[:6]
     for rel in projs:
         l, u, d = rng.choice(CELLS) if not quick else rng.choice([('mirror', 'off', 'shared'), ('mirror', 'on', 'static'),
                                                                   ('flat', 'off', 'both'), ('mirror', 'subprojects', 'both')])
@@ -878,7 +941,7 @@ def main() -> int:
     SCRATCH_ROOT = common.scratch_dir('c04')
     runner.preload()
     cases = plan(chk)
-    budget = 150.0 if chk.tier == 'quick' else 1100.0
+    budget = 120.0 if chk.tier == 'quick' else 1100.0
     t0 = time.time()
     results: T.List[dict] = []
     # chunks keep the wall-clock cap effective: stop submitting once the budget is used up
